@@ -15,6 +15,9 @@ structure Inst where
   name : String
   st : BSt
   batches : List (Nat × List BOp) := []
+  /-- step-wise iterators: what is still to be delivered.  Under the interface's contract (no write within the domain while
+  the iterator exists) every engine delivers the content as of creation. -/
+  iters : List (Nat × List KV) := []
 
 structure St where
   insts : List Inst := []
@@ -103,6 +106,12 @@ def afterWrite : BSt → AfterWrite
   | .ref _ => .empty
   | .bdg _ => .empty
 
+def engineOf : BSt → Engine
+  | .mem _ => .mem
+  | .ldb _ => .ldb
+  | .ref _ => .bolt
+  | .bdg _ => .bdg
+
 def batchOf (i : Inst) (id : Nat) : List BOp := (i.batches.lookup id).getD []
 
 def setBatch (i : Inst) (id : Nat) (ops : List BOp) : Inst :=
@@ -116,7 +125,14 @@ def stepInst (s : St) (i : Inst) (toks : List String) : Inst × String :=
   let v := argBytes toks "v"
   let id := (argNat? toks "id").getD 0
   let pk := fun (key : Bytes) => match s.pfx with | some p => p ++ key | none => key   -- batches address the view
-  if op == "set" || op == "setsync" || op == "put" then
+  let eng := engineOf i.st
+  let sk := if under then k else pk k   -- the key as the store sees it
+  if (op == "set" || op == "setsync") && !eng.stores sk then (i, "ok")                 -- empty key: dropped
+  else if op == "put" && !eng.stores sk then (i, if eng.putErr sk then "err" else "ok")
+  else if (op == "del" || op == "delsync") && eng.panicsOnDelete sk then (i, "panic")
+  else if op == "delerr" && eng.delErr sk then (i, "err")
+  else if (op == "get" || op == "has") && eng.panicsOnRead sk then (i, "panic")
+  else if op == "set" || op == "setsync" || op == "put" then
     ({ i with st := i.st.lift (fun I db => (vI I s.pfx under).set db k v) }, "ok")
   else if op == "del" || op == "delsync" || op == "delerr" then
     ({ i with st := i.st.lift (fun I db => (vI I s.pfx under).del db k) }, "ok")
@@ -138,11 +154,23 @@ def stepInst (s : St) (i : Inst) (toks : List String) : Inst × String :=
   else if op == "bset" then (setBatch i id (batchOf i id ++ [BOp.set (pk k) v]), "ok")
   else if op == "bdel" then (setBatch i id (batchOf i id ++ [BOp.del (pk k)]), "ok")
   else if op == "bwrite" || op == "bwritesync" || op == "bcommit" then
-    let i' := { i with st := i.st.lift (fun I db => writeBatch I db (batchOf i id)) }
+    let i' := { i with st := i.st.lift (fun I db => writeBatch I db (eng.batchOps (batchOf i id))) }
     (setBatch i' id (batchAfterWrite (afterWrite i.st) (batchOf i id)), "ok")
   else if op == "breset" then (setBatch i id [], "ok")
   else if op == "bdrop" then ({ i with batches := i.batches.filter (fun b => b.1 != id) }, "ok")
-  else if op == "reopen" then ({ i with st := i.st.lift (fun I db => I.reopen db), batches := [] }, "ok")
+  else if op == "reopen" then ({ i with st := i.st.lift (fun I db => I.reopen db), batches := [], iters := [] }, "ok")
+  else if op == "iopen" then
+    let r := if (arg? toks "rev") == some "1" then i.st.read (fun I db => vRIter I db s.pfx under (argBound toks "s") (argBound toks "e"))
+             else i.st.read (fun I db => vIter I db s.pfx under (argBound toks "s") (argBound toks "e"))
+    match r with
+    | none => (i, "panic")
+    | some kvs => ({ i with iters := (id, kvs) :: i.iters.filter (fun b => b.1 != id) }, "ok")
+  else if op == "istep" then
+    match i.iters.lookup id with
+    | none => (i, "noiter")
+    | some [] => (i, "end")
+    | some (kv :: rest) => ({ i with iters := (id, rest) :: i.iters.filter (fun b => b.1 != id) }, hexEncode kv.1 ++ ":" ++ hexEncode kv.2)
+  else if op == "iclose" then ({ i with iters := i.iters.filter (fun b => b.1 != id) }, "ok")
   else (i, "bad-op")
 
 def newInst (name : String) : Option Inst :=
